@@ -140,6 +140,8 @@ def _(c):
     c.ensures('result.simulation_result.shape[0] == len(timepoints) and result.simulation_result.shape[1] == sim.num_species',
               label='one-row-per-time-point')
     c.ensures('arr(sim.initial_state) == old(arr(sim.initial_state))', label='initial-condition-untouched')
+    c.ensures('arr(sim.update_array) == old(arr(sim.update_array)) and arr(sim.delay_update_array) == old(arr(sim.delay_update_array))',
+              label='model-stoichiometry-untouched')
     c.opt(result_class='SSAResult')
 
 
